@@ -443,7 +443,16 @@ func (ep *episode) prepare(j *Job, jres *JobResult) (*jobRun, error) {
 		return jr, ep.bind2(jr, nil, r, faulty)
 	case "mcu", "mco", "dc3v2", "dc3v1":
 		lw := &leafWrapper{on: j.Leaves}
-		model := buildModel3(j.Model, lw)
+		var model sdf.SDF3
+		if strings.HasPrefix(j.Model, "cat") && strings.Contains(j.Model, ":") {
+			m, err := catModel3(j.Model, j.Leaves)
+			if err != nil {
+				return nil, err
+			}
+			model = m
+		} else {
+			model = buildModel3(j.Model, lw)
+		}
 		var inner render3er
 		switch j.Kind {
 		case "mcu":
